@@ -80,6 +80,16 @@ class TModel(ChanModel):
             # the model state so that histories through it stay distinct and time is advanced past it.
             self.timers.append([self.now + int(op[1] * 1000), w, -1, "deadline"])
             return self._op(w, op[2], deadline)
+        if k == "tcd":
+            # (try (ev/with-deadline 0.5 (ev/thread ...)) ([e] nil)): the thread blocks until the waiter has given up, so
+            # the call can only end through its deadline (or a cancellation); afterwards the thread is released and
+            # finishes on its own - its completion must not reach the inner wait that follows
+            self.cont[w] = op[1]
+            wid = self.nextwid
+            self.nextwid += 1
+            self.wait[w] = (wid, ("threadcall",))
+            self.timers.append([self.now + 500, w, wid, "deadline"])
+            return []
         if k == "trw":
             # (try (ev/read pipe 4 nil tmo) ([e] nil)) followed by the inner operation: two waits of one fiber, the
             # first one inside a nested fiber. Whatever the first wait registered must be inert during the second.
